@@ -249,7 +249,7 @@ def ancilla_case(case):
     return {"ok": True, "nt": k >= 2, "ops": 2, "out": "k%d" % k}
 
 
-FUNCS = {"inverse": inverse_case, "controlled": controlled_case, "layers": layer_case, "apply_to_qubits": apply_case, "ancilla": ancilla_case}
+FUNCS = {"inverse_runs": inverse_case, "inverse": inverse_case, "controlled": controlled_case, "layers": layer_case, "apply_to_qubits": apply_case, "ancilla": ancilla_case}
 
 
 def run(run):
@@ -262,7 +262,25 @@ def run(run):
         for combo in idx:
             circs.append({"ops": [A[i] for i in combo], "n": 3})
     circs += [{"ops": [A[i]], "n": 4} for i in range(0, len(A), 4)]
-    secs = [Section("inverse", circs, inverse_case, horizon=300, desc="inverse(): adjoint, c + c^-1 = identity, double inverse, width")]
+    # runs of operations whose gates share one NAME (U3 with different angles, GPi2, CNOT, the wrapper name of every controlled gate) in every order of length 3
+    # (thorough 4): neighbours on disjoint qubits, a later operation returning to an earlier qubit - the reversal must be by operation, whatever "layers" are visible
+    fams = [([{"gate": G("U3", *t), "q": [q]} for t in ((0.3, -1.1, 2.5), (1.0, 0.2, -0.4)) for q in (0, 1)], 2),
+            ([{"gate": G("GPi2", a), "q": [q]} for a in (0.3, 1.2) for q in (0, 1)] + [{"gate": G("custom1p", 0.3, 0.7), "q": [0]}, {"gate": G("custom1p", -0.2, 0.4), "q": [1]}], 2),
+            ([{"gate": G("CNOT"), "q": list(q)} for q in ((0, 1), (2, 3), (1, 0), (3, 1))], 4),
+            ([{"gate": W("controlled", G("X"), k=1), "q": [0, 1]}, {"gate": W("controlled", G("RY", 0.3), k=1), "q": [2, 3]}, {"gate": W("controlled", G("Z"), k=1), "q": [3, 0]},
+              {"gate": W("controlled", G("T"), k=1), "q": [1, 0]}, {"gate": W("controlled", G("H"), k=2), "q": [2, 0, 1]}], 4)]
+    runs_ = []
+    for fam, n in fams:
+        for ln in ((3, 4) if thorough else (3,)):
+            for combo in itertools.product(range(len(fam)), repeat=ln):
+                if len(set(combo)) > 1:
+                    runs_.append({"ops": [fam[i] for i in combo], "n": n})
+    # gates on 4-5 qubits with complex entries (wide controlled gates), alone and under one more control
+    big = [{"ops": [{"gate": W("controlled", G("T"), k=3), "q": [3, 0, 2, 1]}], "n": 4}, {"ops": [{"gate": W("controlled", G("RX", 0.3), k=2), "q": [2, 0, 1]}, {"gate": G("S"), "q": [0]}], "n": 3},
+           {"ops": [{"gate": W("controlled", G("U3", 0.3, -1.1, 2.5), k=4), "q": [4, 3, 0, 2, 1]}], "n": 5}, {"ops": [{"gate": W("controlled", G("Y"), k=3), "q": [0, 1, 2, 3]}, {"gate": G("H"), "q": [3]}], "n": 4},
+           {"ops": [{"gate": W("controlled", W("controlled", W("controlled", W("controlled", G("PHASE", 0.7), k=1), k=1), k=1), k=1), "q": [0, 1, 2, 3, 4]}], "n": 5}]
+    secs = [Section("inverse_runs", runs_ + big, inverse_case, horizon=300, desc="inverse() on every length-3 run of same-named gates (4 families: U3, GPi2/custom, CNOT, controlled-*) and on 4-5 qubit controlled gates with complex entries")]
+    secs += [Section("inverse", circs, inverse_case, horizon=300, desc="inverse(): adjoint, c + c^-1 = identity, double inverse, width")]
     cc = []
     for c in circs:
         if len(c["ops"]) <= 2 and not any(has(o, lambda g: g.get("w") == "power" and isinstance(g.get("e"), str)) for o in c["ops"][:0]):
@@ -270,6 +288,7 @@ def run(run):
                 cc.append({**c, "k": k})
     if not thorough:
         cc = [c for c in cc if len(c["ops"]) <= 1] + [c for i, c in enumerate(cc) if len(c["ops"]) == 2 and i % 5 == 0]
+    cc += [{**c, "k": k} for c in big for k in range(0, c["n"] + 1)]
     secs.append(Section("controlled", cc, controlled_case, horizon=300, desc="controlled(k) for every k in 0..n"))
     secs.append(Section("layers", [{"n": n, "f": f, "rows": rm} for n in range(0, 6) for f in FACT for rm in ("default", "zero-rows", "all-zero")], layer_case,
                         desc="create_layer_of_gates for n in 0..5 x factories with 0..3 parameters x row sets (distinct rows, rows of zeros)"))
